@@ -78,7 +78,8 @@ class C19(PropertyCheck):
             "pixels; distinct = distinct case line.")
     assumptions = [
         "A-float: f64 ceil/log2 in etc1::decode and the f32 size product in ctpk::read are exact on the domain (modelled by integer functions; "
-        "confirmed by the correspondence over all 25 sizes and odd sizes)",
+        "confirmed by the correspondence over all 25 sizes, odd sizes, and the block consumption of d x 1 / 1 x d images for d = 1..40 (300 thorough) "
+        "and 2^k-1, 2^k, 2^k+1 up to 2049)",
         "A-alloc: allocations below 2^32 pixels succeed",
         "the 3DS formats are reached through a single-texture CTPK built by the harness, CI8 through a single-image TPL built by the harness",
     ]
@@ -115,6 +116,15 @@ class C19(PropertyCheck):
         for byte in range(4):
             vals = [((v << (8 * byte)) | (rng.getrandbits(32) & ~(0xFF << (8 * byte)))) & 0xFFFFFFFF for v in range(256)]
             color(0, 16, 16, tiled_payload(0, 16, 16, vals), "rgba8-byte-sweep")
+
+        # RGBA8 boundary values: all zero, all ones, each byte alone at 0x00 / 0xFF / 0x01 / 0x80 (special-value fast paths)
+        vals = [0, 0xFFFFFFFF]
+        for byte in range(4):
+            for v in (0xFF, 0x01, 0x80, 0x7F):
+                vals += [v << (8 * byte), 0xFFFFFFFF ^ (v << (8 * byte))]
+        vals += [rng.getrandbits(32) for _ in range(64 - len(vals))]
+        rng.shuffle(vals)
+        color(0, 8, 8, tiled_payload(0, 8, 8, vals), "rgba8-byte-sweep")
 
         # 2. all 25 sizes x all listed formats, random payloads
         reps = 1 if not thorough else 8
@@ -223,6 +233,19 @@ class C19(PropertyCheck):
         for i in range(0, len(oblocks), 16):
             side, payload = etc_image(False, oblocks[i:i + 16], rng)
             etc(False, side, side, payload, "etc1-out-of-range-delta")
+
+        # 3b. A-float: the tile count 1 << (ceil(d / 8.0).log2() as usize) of etc1::decode, observed through the number of blocks
+        # consumed: d x 1 and 1 x d images with exactly tiles(w)*tiles(h) blocks (ok) and one block fewer (slice panic); model-compared
+        def tiles(d):
+            return 1 if d <= 8 else 1 << (((d + 7) // 8).bit_length() - 1)
+        ds = set(range(1, 41 if not thorough else 301))
+        for k in range(6, 12):
+            ds.update([(1 << k) - 1, 1 << k, (1 << k) + 1])
+        for d in sorted(ds):
+            for (w, h) in ((d, 1), (1, d)):
+                n = tiles(w) * tiles(h) * 4 * 8
+                etc(False, w, h, rand_bytes(rng, n), "etc-tile-count", ctpk=False)
+                etc(False, w, h, rand_bytes(rng, n - 8), "etc-tile-count", ctpk=False)
 
         # 4. RGB5A3: all 65536 values
         for chunk in range(16):
@@ -396,7 +419,7 @@ TB = ("Trusted: Coq 8.16.1 kernel (vm_compute, no native_compute), no axioms (Pr
       "ExtrOcamlBasic extraction + hand-written OCaml driver, the Rust harness and Python generators/oracles. ")
 
 MANIFEST = dict(
-    text="Proved (19 theorems in Properties/C19.v, none partial) about executable Gallina models of texture_decoder.rs, etc1.rs, pixel_encodings.rs, "
+    text="Proved (28 theorems in Properties/C19.v, all closed, none partial) about executable Gallina models of texture_decoder.rs, etc1.rs, pixel_encodings.rs, "
          "texture_utils.rs and the CI8 path of tpl.rs: TILE_ORDER is the Morton order; for every listed raw format and EVERY width/height that is a "
          "multiple of 8 (w*h < 2^32) pixel (X,Y) is decode_color of the element at its Z-order index, in both arithmetic modes; every channel of all "
          "65536 values per format is within one quantisation step of the linear expansion (exact for 8/4/1-bit fields); the ETC1 block decoder equals a "
